@@ -195,8 +195,7 @@ def run_config(ctx, rep, cfg, F, walkers=None, ctors=None, extras=True, floor=90
     if not extras:
         rep.floor("iterator step / constructor paths (%s)" % cfg, n, floor)
         return
-    # ---- clones are derived (copy table reference + stack)
-    derived = {i["path"]: i for i in F.impls if i.get("trait") == "std::clone::Clone"}
+    # ---- clones: derived (copies table reference + stack), or a hand-written clone / clone_from that provably does the same
     for short in CLONES:
         path = F.short.get(short)
         f = F.fns.get(path) if path else None
@@ -206,10 +205,49 @@ def run_config(ctx, rep, cfg, F, walkers=None, ctors=None, extras=True, floor=90
                 imp = i
         if imp is None:
             rep.bad("R03.6", short, "missing", "%s not found" % short, kind="unrecognised", config=cfg)
-        elif not imp.get("auto_derived"):
-            rep.bad("R03.6", short, "hand-written-clone", "%s is not derived: a hand-written clone of an iterator must be reviewed" % short, config=cfg)
-        else:
+            continue
+        if imp.get("auto_derived"):
             rep.ok("R03.6", short, "derived")
+            continue
+        for it_ in imp["items"]:
+            if it_["kind"] != "AssocFn":
+                continue
+            ms = F.short_of.get(it_["path"], it_["path"])
+            mpath = it_["path"]
+
+            def prog(it, mpath=mpath, name=it_["name"]):
+                params = C.fn_params(F, mpath)
+                args = [absint.unknown(it, ty, nm) for nm, ty, _ in params]
+                r = it.run_fn(mpath, args)
+                src = args[-1] if name == "clone_from" else args[0]
+                dst = args[0] if name == "clone_from" else r
+                def parts(v):
+                    v = it.val_force(v)
+                    while isinstance(v, RefV):
+                        v = it.force(v.cell)
+                    st = innermost(it, v)
+                    if st is None:
+                        return None
+                    return (repr(it.force(st.fields["table"])).replace("?", ""), repr(it.force(st.fields["nodes"])).replace("?", ""))
+                it.emit("clone_parts", src=parts(src), dst=parts(dst))
+                return r
+            key = (cfg, "clone;" + ms)
+            if key not in ctx._paths:
+                ctx._paths[key] = absint.explore(F, None, None, {"loop_bound": 2}, program=prog)
+            paths = ctx._paths[key]
+            unrec = [p for p in paths if p.result[0] == "unrecognised"]
+            if unrec:
+                rep.bad("R03.6", ms, "hand-written-clone", "%s is hand-written and cannot be followed (%s): it must copy the table reference and the "
+                        "stack of its source" % (ms, unrec[0].result[1][:100]), kind="unrecognised", config=cfg)
+                continue
+            for p in C.complete(paths):
+                for e in p.ev("clone_parts"):
+                    if e["src"] is None or e["dst"] is None or e["src"][0] != e["dst"][0] or e["src"][1].split("++")[0] != e["dst"][1].split("++")[0]:
+                        rep.bad("R03.6", ms, "clone-differs", "%s: the copy walks table %s with stack %s, the source walks table %s with stack %s: a cloned "
+                                "iterator must continue exactly where its source is" % (ms, e["dst"] and e["dst"][0], e["dst"] and e["dst"][1],
+                                                                                           e["src"] and e["src"][0], e["src"] and e["src"][1]), config=cfg)
+                    else:
+                        rep.ok("R03.6", ms, "copies table and stack")
     # ---- R03.7: "exactly once" needs the linked slots to form a tree; the structural mutators must keep it one
     from . import c16
     n_tree = 0
